@@ -44,7 +44,7 @@ ASSUMPTIONS = [
 KINDS = ("supervised", "semi", "unsup")
 
 
-EXPECTED_PROBES = ['asymmetric_metric', 'call_raises_consistently', 'file_overwritten_after_a_model_read_it', 'fit_after_file_overwritten', 'integer_valued_metric', 'non_identity_index_array', 'path_overwritten', 'unsupervised_best_k_gt_1']
+EXPECTED_PROBES = ['non_float64_data_set', 'asymmetric_metric', 'call_raises_consistently', 'file_overwritten_after_a_model_read_it', 'fit_after_file_overwritten', 'integer_valued_metric', 'non_identity_index_array', 'path_overwritten', 'unsupervised_best_k_gt_1']
 
 SLOW_ARMS = ("restart",)
 
@@ -93,9 +93,16 @@ def gen_case(rng, arm, tier, k=0):
         if t not in train:
             Y[t] = rng.randrange(K)
     ext = rng.choice(("txt", "csv"))
+    dtype = "float64"
+    if rng.random() < 0.12:
+        dtype = rng.choice(B.DTYPES)
+        metric = rng.choice(B.DTYPE_METRICS)
+        D = [[float(int(abs(v)) % 4) for v in r] for r in D]
     mk = rng.randint(1, max(1, min(4, len(train) - 1)))
-    case = {"kind": kind, "metric": metric, "style": style, "ext": ext, "D": D, "Y": Y, "train": train, "unl": unl, "test": test, "max_k": mk, "min_k": rng.randint(1, mk)}
+    case = {"kind": kind, "metric": metric, "style": style, "ext": ext, "D": D, "Y": Y, "train": train, "unl": unl, "test": test, "max_k": mk, "min_k": rng.randint(1, mk), "dtype": dtype}
     metric2 = rng.choice(ALL_METRICS if style not in ("generic",) else sorted(REAL_DOMAIN))
+    if dtype != "float64":
+        metric2 = rng.choice(B.DTYPE_METRICS)
     ops = [["pre", 0, metric]]
     models = 0
     files = {0}
@@ -170,10 +177,14 @@ def run_case(case):
             raise OutOfDomain()
         kind, ext = case["kind"], case["ext"]
         D = arr(case["D"]).reshape(len(case["D"]), -1)
+        if case.get("dtype", "float64") != "float64":
+            D = D.astype(case["dtype"])
+            bump(out.probes, "non_float64_data_set")
         Y = iarr(case["Y"])
         tr, un, te = case["train"], case["unl"], case["test"]
         Xtr, Ytr, Itr = D[tr], Y[tr], iarr(tr)
-        Xun = D[un] if un else np.zeros((0, D.shape[1]))
+        tr_all = list(tr) + (list(un) if case["kind"] == "semi" else [])  # node i of a fitted model is this row of D
+        Xun = D[un] if un else np.zeros((0, D.shape[1]), dtype=D.dtype)
         log = EventLog()
         paths = [os.path.join(scratch, "dist%d.%s" % (i, ext)) for i in range(2)]
         file_metric = [None, None]
@@ -305,7 +316,7 @@ def run_case(case):
                         E = np.zeros((n, n))
                         for i in range(n):
                             for j in range(n):
-                                E[i, j] = fn(np.array(nodes[i].features, dtype=np.float64), np.array(nodes[j].features, dtype=np.float64))
+                                E[i, j] = fn(D[tr_all[i]].copy(), D[tr_all[j]].copy()) if n == len(tr_all) else fn(np.array(nodes[i].features), np.array(nodes[j].features))
                         G = np.asarray(G)
                         if G.shape != E.shape:
                             raise Stop(violation("get_distances-wrong", "get_distances returned shape %s for %d training samples" % (G.shape, n), normalize=normalize, **facts))
@@ -330,7 +341,7 @@ def run_case(case):
                 metric = file_metric[f]
                 Bm = make(kind, metric, case)
                 rb = attempt(Bm.fit, *((Xtr.copy(), Ytr.copy(), Xun.copy()) if kind == "semi" else (Xtr.copy(), Ytr.copy())))
-                req = {"c10": True, "kind": kind, "metric": metric, "path": paths[f], "D": case["D"], "Y": case["Y"], "train": tr, "unl": un, "test": te, "max_k": case["max_k"], "min_k": case["min_k"]}
+                req = {"c10": True, "kind": kind, "metric": metric, "path": paths[f], "D": case["D"], "Y": case["Y"], "train": tr, "unl": un, "test": te, "max_k": case["max_k"], "min_k": case["min_k"], "dtype": case.get("dtype", "float64")}
                 rep = c19.restart_query(req)
                 bump(out.faults, "restart_fresh_interpreter")
                 if "error" in rep:
